@@ -149,16 +149,16 @@ PlaceReq(o) ==
      strat |-> "A", rck |-> Rck, sel |-> 1, side |-> "BACK", otype |-> "LIMIT", price |-> 200,
      size |-> Size, pers |-> "LAPSE", tif |-> "NONE", minfill |-> -1, multi |-> TRUE, reset |-> 0,
      placereset |-> 0, maxtrades |-> 10, maxlive |-> 10, pendorders |-> FALSE, r |-> "ACCEPT",
-     selk |-> "1", client |-> Client, lad |-> "CLASSIC"]
+     selk |-> "1", client |-> Client, lad |-> "CLASSIC", tclient |-> ""]
 
 Requests ==
     {PlaceReq(o) : o \in Orders}
-    \cup {[kind |-> "CANCEL", o |-> o, red |-> rd, force |-> FALSE, mid |-> Mid, r |-> "ACCEPT"] :
+    \cup {[kind |-> "CANCEL", o |-> o, red |-> rd, force |-> FALSE, mid |-> Mid, r |-> "ACCEPT", tclient |-> ""] :
              o \in DOMAIN s.ord, rd \in {0, 1}}
-    \cup {[kind |-> "UPDATE", o |-> o, pers |-> "PERSIST", force |-> FALSE, mid |-> Mid, r |-> "ACCEPT"] :
+    \cup {[kind |-> "UPDATE", o |-> o, pers |-> "PERSIST", force |-> FALSE, mid |-> Mid, r |-> "ACCEPT", tclient |-> ""] :
              o \in DOMAIN s.ord}
     \cup (IF AllowReplace
-          THEN {[kind |-> "REPLACE", o |-> o, price |-> 210, force |-> FALSE, mid |-> Mid, r |-> "ACCEPT"] :
+          THEN {[kind |-> "REPLACE", o |-> o, price |-> 210, force |-> FALSE, mid |-> Mid, r |-> "ACCEPT", tclient |-> ""] :
                    o \in DOMAIN s.ord \cap Orders}
           ELSE {})
 
